@@ -658,7 +658,8 @@ def step (st : St) (line : String) : St × List String :=
   match fs with
   | [] => (st, [])
   | op :: id :: rest =>
-    if op = "winit" then doWinit st id rest
+    if op = "end" then flush st
+    else if op = "winit" then doWinit st id rest
     else if op = "wbatch" || op = "wtick" || op = "wheight" || op = "wskip" then
       if !st.c.active || st.c.id ≠ id then
         let (st, out) := flush st
